@@ -231,6 +231,11 @@ def lean_search(chk, props_module, theorem, imports, opens, trials=120, binary=N
         raw = [gen(ty) for (_, ty) in params]
         if any(v is None for v in raw):
             return None
+        # scalar tolerances (equalWithAbsError / equalWithRelError: binders e, eps, tol, tolerance): non-negative, and large
+        # enough in half of the cases that a twin pair differing in one slot is "equal" within it
+        for i, (nm, ty) in enumerate(params):
+            if ty.replace("α", "").strip() == "" and nm in ("e", "eps", "tol", "tolerance"):
+                raw[i] = [rng.choice(["(0 : Rat)", "((1 : Rat) / 2)", "(1 : Rat)", "(3 : Rat)", "(8 : Rat)", "(50 : Rat)"])]
         if t % 3 == 2:
             # twins: a later binder of the same type is a copy of an earlier one except in ONE slot (cycling over the slots):
             # the inputs on which a comparison / equalWith* / aliasing statement with one wrong index is false
@@ -252,6 +257,10 @@ def lean_search(chk, props_module, theorem, imports, opens, trials=120, binary=N
     tys = [("Rat" if ty.strip() == "α" else ty.replace("α", "Rat")) for (_, ty) in params]
     lines = ["import %s" % i for i in imports]
     lines += ["open %s" % o for o in opens]
+    # `X.All₂ p a b` (Basic/Maps.lean) is a plain conjunction; give `decide` the instance it cannot find through the def
+    for ty in sorted(set(re.findall(r"\b([A-Z][A-Za-z0-9]*)\.All₂", stmt))):
+        lines.append("instance {α β : Type} (p : α → β → Prop) [∀ x y, Decidable (p x y)] (a : %s α) (b : %s β) : "
+                     "Decidable (%s.All₂ p a b) := by unfold %s.All₂; infer_instance" % (ty, ty, ty, ty))
     lines.append("def stmtHolds %s : Bool := decide (%s)" % (" ".join("(%s : %s)" % (n, t) for n, t in zip(names, tys)), stmt))
     for i, vs in enumerate(cases):
         lines.append('#eval IO.println s!"CASE %d {stmtHolds %s}"' % (i, " ".join("(%s)" % v for v in vs)))
